@@ -615,7 +615,7 @@ p06 = Prop("C06", "StreamReader returns exactly the valid delimited records",
            quick=[codecx.StreamRecords("quick")] + C06_Q,
            thorough=[codecx.StreamRecords("thorough")] + C06_T,
            bounds_quick="assume/guarantee in three layers. (1) Engine X: StreamReader::next_record_bytes + chunk_judge (MIR), called until None, with StreamChunker::pump replaced by its tiling contract and EVERY admissible chunking explored: every byte stream of length <= 5 (no limits), length 4 with max_record_size 0/1/2 and every limit_offset, and 9-11 byte streams with fixed delimiters and symbolic payload/garbage; result == reference record splitter (records, exact ranges, order, end of stream). (2) Engine K: the real pump satisfies that contract for one step from EVERY chunker state (two C08 jobs: block size 0 with a short read / interrupted call, block size 4). (3) Engine K: ByteArena::read_n under every reader script of <= 4 actions (two C17 jobs)",
-           bounds_thorough="streams <= 7 bytes, limits on streams of 4-6 bytes, four C08 jobs (block sizes 0,2,3,4 with 2 symbolic reader events), five C17 jobs",
+           bounds_thorough="streams <= 6 bytes (7 bytes: the mismatch query did not come back within the 300 s solver cap), limits on streams of 4-6 bytes, four C08 jobs (block sizes 0,2,3,4 with 2 symbolic reader events), five C17 jobs",
            outside=["hard I/O errors from the reader (the contract stub never fails; the property quantifies over short reads and interrupted calls, which the C08/C17 layers cover)",
                     "streams longer than the stated lengths; records longer than a few bytes (the decoder at production limits on long chunks is C07's windowed jobs)",
                     "block sizes above 6 (C08's bound); the real OwningIovec behind the record (take/clear/total_size are modelled on the event log; C03/C20 decide parts of the real ones)",
